@@ -337,6 +337,7 @@ class _Gen(object):
         self.created = set(['mp', 'iv', 'fp'])
         self.nfault = 0
         self.used = {}
+        self.seen_precs = [53]
 
     def new_id(self):
         self.nid += 1
@@ -385,6 +386,11 @@ class _Gen(object):
             c = r.random()
             if c < 0.22 and actor != 'fp':
                 p = pick_prec(r, 600)
+                if r.random() < 0.35:
+                    # collide on purpose: a precision another context has now or had earlier
+                    # (tables keyed by precision alone are shared exactly then; fp is always 53)
+                    p = r.choice(self.seen_precs)
+                self.seen_precs.append(p)
                 if r.random() < 0.8:
                     steps.append({'kind': 'setprec', 'actor': actor, 'value': I(p), 'id': self.new_id()})
                     self.cur[actor] = p
